@@ -388,8 +388,8 @@ func checkC07(w *World, r *Report) {
 			}
 			inTry := reg[ec.call.Block()]
 			if ec.fn != m.EVAL {
-				// closure of the try form?
-				inTry = false
+				// closure of the try form, or a helper called from it?
+				inTry = m.regionOf(ec.call.Block()) == "try"
 				for b := range reg {
 					for _, in := range b.Instrs {
 						if mc, ok := in.(*ssa.MakeClosure); ok && mc.Fn == ssa.Value(ec.fn) {
